@@ -212,11 +212,95 @@ static void fill_mem(uint8_t* p, size_t n, uint8_t fill) {
   }
 }
 
+
+// ---------------------------------------------------------------- guarded buffers
+//
+// Byte buffers handed to the library (source pieces, destination windows, work
+// buffer, pixel buffer) end exactly at an inaccessible page, so that an access
+// past the end faults even when it is made by code the sanitizers do not
+// instrument (SIMD load/store intrinsics are opaque builtins to gcc's ASan).
+// Each role owns two persistent arenas (a new buffer is usually filled from the
+// old one before that is released); the arena is poisoned for ASan except for
+// the live buffer, so under-runs and use after release are still reported. The
+// arenas are mapped once per process: no allocator or page-fault cost per request.
+#if defined(__SANITIZE_ADDRESS__)
+#define STDH_ASAN 1
+#elif defined(__has_feature)
+#if __has_feature(address_sanitizer)
+#define STDH_ASAN 1
+#endif
+#endif
+#ifdef STDH_ASAN
+#include <sanitizer/asan_interface.h>
+#define GA_POISON(p, n) __asan_poison_memory_region((p), (n))
+#define GA_UNPOISON(p, n) __asan_unpoison_memory_region((p), (n))
+#else
+#define GA_POISON(p, n) ((void)0)
+#define GA_UNPOISON(p, n) ((void)0)
+#endif
+
+typedef struct { uint8_t* lo; uint8_t* end; uint8_t* cur; size_t curlen; size_t cap; } garena;
+enum { G_SRC, G_DST, G_WORK, G_PIX, G_NROLES };
+static const size_t g_role_cap[G_NROLES] = {32u << 20, 16u << 20, 160u << 20, 48u << 20};
+static garena g_ar[G_NROLES][2];
+static int g_ar_next[G_NROLES];
+static int g_nfallback;
+
+static int ga_map(garena* a, size_t cap) {
+  const size_t pg = 4096;
+  uint8_t* m = (uint8_t*)mmap(NULL, cap + pg, PROT_READ | PROT_WRITE, MAP_PRIVATE | MAP_ANONYMOUS | MAP_NORESERVE, -1, 0);
+  if (m == MAP_FAILED) return 0;
+  if (mprotect(m + cap, pg, PROT_NONE)) { munmap(m, cap + pg); return 0; }
+  a->lo = m; a->end = m + cap; a->cap = cap; a->cur = NULL; a->curlen = 0;
+  GA_POISON(m, cap);
+  return 1;
+}
+
+static void* gmalloc(int role, size_t n) {
+  for (int t = 0; t < 2; t++) {
+    int idx = (g_ar_next[role] + t) & 1;
+    garena* a = &g_ar[role][idx];
+    if (a->cur) continue;
+    if (!a->lo && !ga_map(a, g_role_cap[role])) break;
+    if (n > a->cap) break;
+    uint8_t* p = a->end - n;
+    GA_UNPOISON(p, n);
+    a->cur = p; a->curlen = n;
+    g_ar_next[role] = idx ^ 1;
+    return p;
+  }
+  if (n <= g_role_cap[role] && g_ar[role][0].lo && g_ar[role][1].lo) {
+    // both arenas of the role are live: a buffer was not released (harness bug, would silently lose the guard page)
+    fprintf(stderr, "STDH-INTERNAL: no free arena for role %d\n", role);
+    abort();
+  }
+  g_nfallback++;
+  return malloc(n ? n : 1);
+}
+
+static void gfree(int role, void* p) {
+  if (!p) return;
+  for (int t = 0; t < 2; t++) {
+    garena* a = &g_ar[role][t];
+    if (a->lo && a->cur == (uint8_t*)p) { GA_POISON(a->cur, a->curlen); a->cur = NULL; a->curlen = 0; return; }
+  }
+  for (int r = 0; r < G_NROLES; r++) {
+    for (int t = 0; t < 2; t++) {
+      garena* a = &g_ar[r][t];
+      if (a->lo && (uint8_t*)p >= a->lo && (uint8_t*)p <= a->end) {
+        fprintf(stderr, "STDH-INTERNAL: release of an arena pointer that is not live (role %d)\n", role);
+        abort();
+      }
+    }
+  }
+  free(p);
+}
+
 static void work_unmap(void);
 
 static void sess_free(void) {
   work_unmap();
-  free(S.obj); free(S.srcmem); free(S.dstmem); free(S.out); free(S.workmem);
+  free(S.obj); gfree(G_SRC, S.srcmem); gfree(G_DST, S.dstmem); free(S.out); gfree(G_WORK, S.workmem);
   memset(&S, 0, sizeof S);
 }
 
@@ -258,13 +342,13 @@ static void src_supply(size_t n) {
   size_t unread = S.src.meta.wi - S.src.meta.ri;
   int closed;
   if (S.src_exact) {
-    uint8_t* nm = (uint8_t*)malloc(unread + n ? unread + n : 1);
+    uint8_t* nm = (uint8_t*)gmalloc(G_SRC, unread + n);
     if (unread) memcpy(nm, S.src.data.ptr + S.src.meta.ri, unread);
     if (n) memcpy(nm + unread, S.pay + S.fed, n);
     S.fed += n;
     closed = (S.src_close == 1) && (S.fed == S.paylen);
     uint64_t pos = S.src.meta.pos + S.src.meta.ri;
-    free(S.srcmem);
+    gfree(G_SRC, S.srcmem);
     S.srcmem = nm;
     S.src.data.ptr = nm;
     S.src.data.len = unread + n;
@@ -274,7 +358,7 @@ static void src_supply(size_t n) {
     S.src.meta.closed = closed;
   } else {
     if (!S.srcmem) {
-      S.srcmem = (uint8_t*)malloc(S.paylen ? S.paylen : 1);
+      S.srcmem = (uint8_t*)gmalloc(G_SRC, S.paylen);
       memset(S.srcmem, 0xEE, S.paylen); // bytes beyond wi are undefined for the callee: poison them
       S.src.data.ptr = S.srcmem;
       S.src.data.len = S.paylen;
@@ -307,11 +391,11 @@ static int late_close(void) {
 static uint64_t g_hrl; // history retain length to honour (UINT64_MAX = all)
 
 static void dst_setup(void) {
-  free(S.dstmem);
+  gfree(G_DST, S.dstmem);
   S.dstmem = NULL;
   size_t cap = S.dst_cap;
   if (S.dst_mode == 2) cap = S.dst_step;
-  S.dstmem = (uint8_t*)malloc(cap ? cap : 1);
+  S.dstmem = (uint8_t*)gmalloc(G_DST, cap);
   fill_mem(S.dstmem, cap, S.dst_fill);
   S.dst.data.ptr = S.dstmem;
   S.dst.data.len = (S.dst_mode == 1) ? (S.dst_step < cap ? S.dst_step : cap) : cap;
@@ -345,11 +429,11 @@ static int dst_more(void) {
       size_t h = S.dst.meta.wi;
       if (g_hrl < h) h = (size_t)g_hrl;
       size_t step = S.dst_step ? S.dst_step : 1;
-      uint8_t* nm = (uint8_t*)malloc(h + step);
+      uint8_t* nm = (uint8_t*)gmalloc(G_DST, h + step);
       if (h) memcpy(nm, S.dst.data.ptr + S.dst.meta.wi - h, h);
       fill_mem(nm + h, step, S.dst_fill);
       uint64_t pos = S.dst.meta.pos + (S.dst.meta.wi - h);
-      free(S.dstmem);
+      gfree(G_DST, S.dstmem);
       S.dstmem = nm;
       S.dst.data.ptr = nm;
       S.dst.data.len = h + step;
@@ -529,7 +613,7 @@ static void work_unmap(void) {
 }
 
 static void work_setup(uint64_t wmin, uint64_t wmax) {
-  free(S.workmem);
+  gfree(G_WORK, S.workmem);
   S.workmem = NULL;
   work_unmap();
   uint64_t n = wmin;
@@ -550,7 +634,7 @@ static void work_setup(uint64_t wmin, uint64_t wmax) {
     S.work.len = (size_t)n;
     return;
   }
-  S.workmem = (uint8_t*)malloc(n ? n : 1);
+  S.workmem = (uint8_t*)gmalloc(G_WORK, (size_t)n);
   if (n > (1u << 20)) { memset(S.workmem, 0x5A, (size_t)n); fill_mem(S.workmem, 1u << 16, S.work_fill); }
   else fill_mem(S.workmem, (size_t)n, S.work_fill);
   S.work.ptr = (S.work_mode == 3) ? NULL : S.workmem;
@@ -575,10 +659,10 @@ static int work_regrow(uint64_t wmin) {
     S.work.len = (size_t)want;
     return 1;
   }
-  uint8_t* nm = (uint8_t*)malloc((size_t)want);
+  uint8_t* nm = (uint8_t*)gmalloc(G_WORK, (size_t)want);
   if (S.work.len) memcpy(nm, S.workmem, S.work.len);
   fill_mem(nm + S.work.len, (size_t)want - S.work.len, S.work_fill);
-  free(S.workmem);
+  gfree(G_WORK, S.workmem);
   S.workmem = nm;
   S.work.ptr = nm;
   S.work.len = (size_t)want;
@@ -755,22 +839,22 @@ static void drive_img(uint32_t maxcalls) {
     wuffs_base__pixel_config__set(&ic.pixcfg, fmt, WUFFS_BASE__PIXEL_SUBSAMPLING__NONE, w, h);
     uint64_t plen = wuffs_base__pixel_config__pixbuf_len(&ic.pixcfg);
     if (plen > (1ull << 28)) { final = "@stdh: pixel buffer too large for the harness"; goto done; }
-    uint8_t* pix = (uint8_t*)malloc(plen ? (size_t)plen : 1);
+    uint8_t* pix = (uint8_t*)gmalloc(G_PIX, (size_t)plen);
     fill_mem(pix, (size_t)plen, S.pixfill);
     wuffs_base__pixel_buffer pb;
     memset(&pb, 0, sizeof pb);
     st = wuffs_base__pixel_buffer__set_from_slice(&pb, &ic.pixcfg, wuffs_base__make_slice_u8(pix, (size_t)plen));
-    if (st.repr) { final = "@stdh: pixel format not usable as a destination"; free(pix); goto done; }
+    if (st.repr) { final = "@stdh: pixel format not usable as a destination"; gfree(G_PIX, pix); goto done; }
     wuffs_base__range_ii_u64 wl = wuffs_base__image_decoder__workbuf_len(d);
     rec_begin('W'); resp_u64(wl.min_incl); resp_u64(wl.max_incl); resp_u64(0); rec_end();
-    if (wl.min_incl > (1ull << 28)) { final = "@stdh: work buffer too large for the harness"; free(pix); goto done; }
+    if (wl.min_incl > (1ull << 28)) { final = "@stdh: work buffer too large for the harness"; gfree(G_PIX, pix); goto done; }
     work_setup(wl.min_incl, wl.max_incl);
     // ---- frames
     for (int frame = 0; frame < 64; frame++) {
       wuffs_base__frame_config fc;
       memset(&fc, 0, sizeof fc);
       while (1) {
-        if (S.ncalls >= maxcalls || work_exceeded()) { gaveup = 1; free(pix); goto done; }
+        if (S.ncalls >= maxcalls || work_exceeded()) { gaveup = 1; gfree(G_PIX, pix); goto done; }
         iosnap_t ss; snap_take(&ss, &S.src);
         size_t sri0 = S.src.meta.ri, swi0 = S.src.meta.wi; int scl0 = S.src.meta.closed;
         pure_probe();
@@ -782,9 +866,9 @@ static void drive_img(uint32_t maxcalls) {
         call_record("decode_frame_config", st, sri0, swi0, scl0, 0, 0);
         if (st.repr == wuffs_base__suspension__short_read) {
           S.nsusp_r++;
-          if (scl0) { violation("$short read from decode_frame_config although the source was closed"); final = st.repr; free(pix); goto done; }
+          if (scl0) { violation("$short read from decode_frame_config although the source was closed"); final = st.repr; gfree(G_PIX, pix); goto done; }
           if (late_close()) continue;
-      if (src_exhausted() && !S.src_close) { final = st.repr; free(pix); goto done; }
+      if (src_exhausted() && !S.src_close) { final = st.repr; gfree(G_PIX, pix); goto done; }
           src_supply(src_next_size());
           continue;
         }
@@ -804,7 +888,7 @@ static void drive_img(uint32_t maxcalls) {
       resp_u32(wuffs_base__frame_config__background_color(&fc));
       rec_end();
       while (1) {
-        if (S.ncalls >= maxcalls || work_exceeded()) { gaveup = 1; free(pix); goto done; }
+        if (S.ncalls >= maxcalls || work_exceeded()) { gaveup = 1; gfree(G_PIX, pix); goto done; }
         iosnap_t ss; snap_take(&ss, &S.src);
         size_t sri0 = S.src.meta.ri, swi0 = S.src.meta.wi; int scl0 = S.src.meta.closed;
         pure_probe();
@@ -816,9 +900,9 @@ static void drive_img(uint32_t maxcalls) {
         call_record("decode_frame", st, sri0, swi0, scl0, 0, 0);
         if (st.repr == wuffs_base__suspension__short_read) {
           S.nsusp_r++;
-          if (scl0) { violation("$short read from decode_frame although the source was closed"); final = st.repr; free(pix); goto done; }
+          if (scl0) { violation("$short read from decode_frame although the source was closed"); final = st.repr; gfree(G_PIX, pix); goto done; }
           if (late_close()) continue;
-      if (src_exhausted() && !S.src_close) { final = st.repr; free(pix); goto done; }
+      if (src_exhausted() && !S.src_close) { final = st.repr; gfree(G_PIX, pix); goto done; }
           src_supply(src_next_size());
           continue;
         }
@@ -843,7 +927,7 @@ static void drive_img(uint32_t maxcalls) {
     resp_u64(fnv(pix, (size_t)plen));
     if (S.dump_pixels >= 1) { resp_u32((uint32_t)plen); resp_bytes(pix, (size_t)plen); } else { resp_u32(0); }
     rec_end();
-    free(pix);
+    gfree(G_PIX, pix);
   }
 done:
   summary(final, gaveup);
@@ -950,7 +1034,7 @@ static void drive_hash(void) {
     size_t n = src_next_size();
     int last = (off + n == S.paylen);
     size_t mis = (size_t)(iter * 7 + 3) & 15;
-    uint8_t* m = (uint8_t*)malloc(mis + n ? mis + n : 1);
+    uint8_t* m = (uint8_t*)gmalloc(G_SRC, mis + n);
     if (n) memcpy(m + mis, S.pay + off, n);
     wuffs_base__slice_u8 sl = wuffs_base__make_slice_u8(m + mis, n);
     pure_probe();
@@ -970,7 +1054,7 @@ static void drive_hash(void) {
     }
     pure_probe();
     S.ncalls++;
-    free(m);
+    gfree(G_SRC, m);
     off += n;
     iter++;
     if (last) break;
@@ -1019,7 +1103,7 @@ static void op_call(void) {
   wuffs_base__status st;
   st.repr = NULL;
   iosnap_t ss, ds;
-  if (!S.src.data.ptr) { S.srcmem = (uint8_t*)malloc(1); S.src.data.ptr = S.srcmem; S.src.data.len = 0; }
+  if (!S.src.data.ptr) { S.srcmem = (uint8_t*)gmalloc(G_SRC, 0); S.src.data.ptr = S.srcmem; S.src.data.len = 0; }
   snap_take(&ss, &S.src);
   snap_take(&ds, &S.dst);
   wuffs_base__io_buffer* srcp = (variant & 2) ? NULL : &S.src;
@@ -1057,9 +1141,9 @@ static void op_call(void) {
             uint32_t w = wuffs_base__pixel_config__width(&ic.pixcfg), h = wuffs_base__pixel_config__height(&ic.pixcfg);
             if ((uint64_t)w * h <= (1u << 20)) {
               wuffs_base__pixel_config__set(&ic.pixcfg, WUFFS_BASE__PIXEL_FORMAT__BGRA_NONPREMUL, 0, w, h);
-              free(pix);
+              gfree(G_PIX, pix);
               size_t plen = (size_t)w * h * 4;
-              pix = (uint8_t*)malloc(plen ? plen : 1);
+              pix = (uint8_t*)gmalloc(G_PIX, plen);
               memset(pix, 0, plen);
               wuffs_base__pixel_buffer__set_from_slice(&pb, &ic.pixcfg, wuffs_base__make_slice_u8(pix, plen));
               wuffs_base__range_ii_u64 wl = wuffs_base__image_decoder__workbuf_len(d);
@@ -1076,7 +1160,7 @@ static void op_call(void) {
           if (!pix) { // a 1x1 buffer when no config was decoded: the image gets clipped, which is documented as valid
             wuffs_base__pixel_config pc; memset(&pc, 0, sizeof pc);
             wuffs_base__pixel_config__set(&pc, WUFFS_BASE__PIXEL_FORMAT__BGRA_NONPREMUL, 0, 1, 1);
-            pix = (uint8_t*)malloc(4); memset(pix, 0, 4);
+            pix = (uint8_t*)gmalloc(G_PIX, 4); memset(pix, 0, 4);
             wuffs_base__pixel_buffer__set_from_slice(&pb, &pc, wuffs_base__make_slice_u8(pix, 4));
           }
           st = wuffs_base__image_decoder__decode_frame(d, (variant & 1) ? NULL : &pb, srcp, WUFFS_BASE__PIXEL_BLEND__SRC, work, NULL);
@@ -1251,8 +1335,8 @@ static void handle_request(void) {
       }
       case 'K': { // raw work buffer of n bytes
         uint32_t n = rq_u32();
-        free(S.workmem);
-        S.workmem = (uint8_t*)malloc(n ? n : 1);
+        gfree(G_WORK, S.workmem);
+        S.workmem = (uint8_t*)gmalloc(G_WORK, n);
         fill_mem(S.workmem, n, 0xFE);
         S.work.ptr = S.workmem; S.work.len = n;
         break;
@@ -1263,7 +1347,7 @@ static void handle_request(void) {
         if (g_reqpos + n > g_reqlen) { g_reqbad = 1; break; }
         S.pay = g_req + g_reqpos; S.paylen = n; g_reqpos += n;
         S.fed = 0; S.src_listpos = 0; g_zeros = 0;
-        free(S.srcmem); S.srcmem = NULL; memset(&S.src, 0, sizeof S.src);
+        gfree(G_SRC, S.srcmem); S.srcmem = NULL; memset(&S.src, 0, sizeof S.src);
         S.outlen = 0; S.ncalls = 0; S.nsusp_r = S.nsusp_w = S.nsusp_other = 0; g_nwindows = 0;
         rec_begin('X'); rec_end();
         break;
